@@ -1539,6 +1539,8 @@ class CircuitTemplate(AbstractBaseTemplate):
         for source, target, template, edge_dict, delayed in edges:
 
             edge_dict = deepcopy(edge_dict)
+            # an omitted weight means 1: state it, so that grouped edges keep one weight per edge
+            edge_dict.setdefault('weight', 1.0)
 
             # relabel variables according to variable map (accounting for vectorization)
             source_new = self._relabel_var(source, label_map)
